@@ -17,6 +17,7 @@ PREFIXES = ["C06."]
 def run(chk):
     for cfg in ["C09", "C09client", "C03clientQ", "C02hist", "C17", "C18info"] + (["C03", "C02client"] if chk.tier == "thorough" else []):
         cerlib.run_config(chk, cfg, PREFIXES)
+    cerlib.random_histories(chk, PREFIXES, quick_n=100)
     cerlib.finish_cov(chk, "every ceremony of the C09/C03/C02/C17/getInfo behaviour sets is one evaluation: all its returned values x all stored secrets x 11 encodings are searched; "
                            "non-trivial = the ceremony reached a prompt or store call",
                       False, "histories from the bounded models; the search itself is harness code (byte search), not TLA+")
